@@ -182,4 +182,291 @@ theorem cellEdgesRef_getElem : ∀ (axes : List (List Q)) (idx : List Nat), InRa
       exact ⟨e', i', by simpa using h1, by simpa using h2, by simpa [cellEdgesRef] using h3,
         by simpa [cellEdgesRef] using h4⟩
 
+/-! ### vocabulary and helper lemmas of the histogram theorems (`Props/C12.lean`) -/
+
+/-- a histogram whose bins have the shape of its edges (what `histogram.__init__` builds from `initial_value`,
+and what `fill` keeps) -/
+def Hist.WF (h : Hist) : Prop := h.edges.axes ≠ [] ∧ HasShape h.nbins h.bins
+
+/-- the weighted bins of the other histogram in `add`: `md_map(lambda val: val*weight, other.bins)` unless the
+weight is 1 -/
+def weightedBins (b : Hist) (w : Q) : Except Err (NArr Q) :=
+  if w ≠ 1 then mdMap (fun val => val * w) b.bins else pure b.bins
+
+theorem weightedBins_zip (a b : Hist) (w : Q) (ob nb : NArr Q) (ho : weightedBins b w = .ok ob)
+    (hnb : mdMap2 (· + ·) a.bins ob = .ok nb) : nb = zipWith (fun x y => x + y * w) a.bins b.bins := by
+  have h2 := mdMap2_eq_zipWith _ _ _ _ hnb
+  unfold weightedBins at ho
+  by_cases hw : w = 1
+  · simp [hw, pure, Except.pure] at ho
+    subst ho
+    subst hw
+    simpa using h2
+  · simp [hw] at ho
+    have := mdMap_eq_map _ _ _ ho
+    subst this
+    rw [h2, zipWith_map_right]
+
+/-- what `histogram(edges, bins=b)` stores -/
+theorem mkHist_some (e : Edges) (b : NArr Q) (i : Q) (nh : Hist) (hk : mkHist e (some b) i = .ok nh) :
+    nh.edges = e ∧ nh.bins = b ∧ nh.scale = none ∧ nh.nOut = 0 := by
+  unfold mkHist at hk
+  cases hce : checkEdgesIncreasing e with
+  | error e => simp [hce, bind, Except.bind] at hk
+  | ok u =>
+    simp only [hce, bind, Except.bind] at hk
+    split at hk
+    · simp at hk
+    · simp at hk
+    · cases hl : lenBins b with
+      | error e => simp [hl] at hk
+      | ok n =>
+        simp only [hl] at hk
+        split at hk
+        · simp at hk
+        · simp [pure, Except.pure] at hk
+          subst hk
+          exact ⟨rfl, rfl, rfl, rfl⟩
+
+/-- with zero tolerances two numbers are close only when they are equal -/
+theorem isclose1_zero (x y : Q) : isclose1 ⟨0, 0⟩ x y = true ↔ x = y := by
+  simp only [isclose1, Rat.abs]
+  constructor
+  · intro h; grind
+  · rintro rfl; grind
+
+theorem iscloseList_zero : ∀ (a b : List Q), a.length = b.length → iscloseList ⟨0, 0⟩ a b = .ok true → a = b
+  | [], [], _, _ => rfl
+  | [], _ :: _, hl, _ => by simp at hl
+  | _ :: _, [], hl, _ => by simp at hl
+  | x :: a, y :: b, hl, h => by
+    simp only [iscloseList] at h
+    split at h
+    · rename_i hxy
+      rw [(isclose1_zero x y).1 hxy, iscloseList_zero a b (by simpa using hl) h]
+    · simp at h
+
+theorem iscloseAxes_zero : ∀ (a b : List (List Q)), nbinsOf a = nbinsOf b → (∀ e ∈ a, e ≠ []) → (∀ e ∈ b, e ≠ []) →
+    iscloseAxes ⟨0, 0⟩ a b = .ok true → a = b
+  | [], [], _, _, _, _ => rfl
+  | [], _ :: _, hl, _, _, _ => by simp [nbinsOf] at hl
+  | _ :: _, [], hl, _, _, _ => by simp [nbinsOf] at hl
+  | x :: a, y :: b, hl, ha, hb, h => by
+    simp only [iscloseAxes] at h
+    simp only [nbinsOf, List.map_cons, List.cons.injEq] at hl
+    have hx := ha x List.mem_cons_self
+    have hy := hb y List.mem_cons_self
+    have hlen : x.length = y.length := by
+      have h1 : x.length ≠ 0 := by simpa using hx
+      have h2 : y.length ≠ 0 := by simpa using hy
+      omega
+    cases hc : iscloseList ⟨0, 0⟩ x y with
+    | error e => simp [hc, bind, Except.bind] at h
+    | ok cl =>
+      cases cl with
+      | false => simp [hc, bind, Except.bind, pure, Except.pure] at h
+      | true =>
+        simp only [hc, bind, Except.bind, if_true] at h
+        rw [iscloseList_zero x y hlen hc, iscloseAxes_zero a b hl.2 (fun e he => ha e (List.mem_cons_of_mem _ he))
+          (fun e he => hb e (List.mem_cons_of_mem _ he)) h]
+
+theorem ranges_eq (axes : List (List Q)) :
+    axes.map (fun e => List.range (e.length - 1)) = (nbinsOf axes).map List.range := by
+  simp [nbinsOf, List.map_map, Function.comp_def]
+
+/-- what the three iterators have in common for every cell `(idx, v)` that `iter_bins` yields -/
+theorem cell_facts (h : Hist) (wf : h.WF) (p : List Nat × Q) (hp : p ∈ cells h.bins) :
+    getBin h.bins p.1 = .ok (.leaf p.2) ∧ cellEdges h.edges.axes p.1 = .ok (cellEdgesRef h.edges.axes p.1) := by
+  refine ⟨?_, cellEdges_ok _ _ (inRange_of_mem_cells _ _ wf.2 p hp)⟩
+  rw [getBin_eq_ok_iff]
+  exact (mem_cells_iff h.bins p.1 p.2).1 hp
+
+theorem rangeFromTo_zero (n : Nat) : rangeFromTo 0 ((n : Int)) = List.range n := by
+  simp [rangeFromTo]
+
+theorem realIndRanges_default : ∀ (axes : List (List Q)),
+    realIndRanges axes (List.replicate axes.length (none, none)) = .ok ((nbinsOf axes).map List.range)
+  | [] => by simp [realIndRanges, nbinsOf]
+  | e :: es => by
+    have ih := realIndRanges_default es
+    have hcast : ((e.length : Int) - 1) = ((e.length - 1 : Nat) : Int) ∨ e.length = 0 := by omega
+    simp only [List.length_cons, List.replicate_succ, realIndRanges, ih, bind, Except.bind, pure, Except.pure,
+      nbinsOf, List.map_cons]
+    congr 2
+    rcases hcast with hc | hc
+    · rw [hc, rangeFromTo_zero]
+    · simp [hc, rangeFromTo]
+
+/-- all positions of an index tuple satisfy their predicate (and the lengths agree) -/
+def selAll : List (Nat → Bool) → List Nat → Bool
+  | [], [] => true
+  | p :: ps, i :: is => p i && selAll ps is
+  | _, _ => false
+
+theorem indexProd_filter : ∀ (ps : List (Nat → Bool)) (rs : List (List Nat)), ps.length = rs.length →
+    indexProd (List.zipWith (fun p r => r.filter p) ps rs) = (indexProd rs).filter (selAll ps)
+  | [], [], _ => by simp [indexProd, selAll, List.filter]
+  | [], _ :: _, h => by simp at h
+  | _ :: _, [], h => by simp at h
+  | p :: ps, r :: rs, h => by
+    have ih := indexProd_filter ps rs (by simpa using h)
+    simp only [List.zipWith_cons_cons, indexProd_cons, ih]
+    clear h
+    induction r with
+    | nil => simp
+    | cons i r ihr =>
+      simp only [List.filter_cons, List.flatMap_cons, List.filter_append]
+      rw [← ihr]
+      by_cases hp : p i = true
+      · simp only [hp, if_true, List.flatMap_cons]
+        congr 1
+        simp only [List.filter_map]
+        congr 1
+        apply List.filter_congr
+        intro t _
+        simp [selAll, hp]
+      · simp only [hp, if_false]
+        have : List.filter (selAll (p :: ps)) (List.map (fun x => i :: x) (indexProd rs)) = [] := by
+          simp only [List.filter_eq_nil_iff, List.mem_map]
+          rintro _ ⟨t, _, rfl⟩
+          simp [selAll, hp]
+        simp [this]
+
+theorem filter_range_ge (lo : Nat) : ∀ u : Nat,
+    (List.range u).filter (fun i => decide (lo ≤ i)) = (List.range (u - lo)).map (· + lo)
+  | 0 => by simp
+  | u + 1 => by
+    rw [List.range_succ, List.filter_append, filter_range_ge lo u]
+    by_cases h : lo ≤ u
+    · have : u + 1 - lo = (u - lo) + 1 := by omega
+      rw [this, List.range_succ, List.map_append]
+      simp [h]
+    · have : u + 1 - lo = u - lo := by omega
+      simp [h, this]
+
+theorem rangeFromTo_eq_filter (lo : Nat) (up : Int) : ∀ (n : Nat), up ≤ n →
+    rangeFromTo lo up = (List.range n).filter (fun (i : Nat) => decide ((lo : Int) ≤ (i : Int) ∧ (i : Int) < up))
+  | 0, hu => by
+    have : up.toNat = 0 := by omega
+    simp [rangeFromTo, this]
+  | n + 1, hu => by
+    by_cases hn : up ≤ (n : Int)
+    · rw [rangeFromTo_eq_filter lo up n hn, List.range_succ, List.filter_append]
+      have : ¬ ((n : Int) < up) := by omega
+      simp [this]
+    · have hup : up = ((n + 1 : Nat) : Int) := by omega
+      subst hup
+      simp only [rangeFromTo, Int.toNat_natCast]
+      rw [← filter_range_ge lo (n + 1)]
+      apply List.filter_congr
+      intro i hi
+      have := List.mem_range.1 hi
+      simp
+      omega
+
+/-- a range `(low, up)` that `iter_cells` accepts for an axis -/
+def ValidRange (e : List Q) (r : Option Int × Option Int) : Prop :=
+  (∀ l, r.1 = some l → 0 ≤ l) ∧ (∀ u, r.2 = some u → u ≤ (e.length : Int) - 1)
+
+/-- the bin indices `low ≤ i < up` that a range selects on an axis (`None`: no limit) -/
+def rangePred (e : List Q) (r : Option Int × Option Int) : Nat → Bool :=
+  fun i => decide (r.1.getD 0 ≤ (i : Int) ∧ (i : Int) < r.2.getD ((e.length : Int) - 1))
+
+/-- one valid range per axis -/
+def ValidRanges : List (List Q) → List (Option Int × Option Int) → Prop
+  | [], [] => True
+  | e :: es, r :: rs => ValidRange e r ∧ ValidRanges es rs
+  | _, _ => False
+
+theorem realIndRanges_cons_valid (e : List Q) (es : List (List Q)) (lo up : Option Int)
+    (rs : List (Option Int × Option Int)) (hv : ValidRange e (lo, up)) :
+    realIndRanges (e :: es) ((lo, up) :: rs) = (do
+      let tail ← realIndRanges es rs
+      pure (rangeFromTo (lo.getD 0).toNat (up.getD ((e.length : Int) - 1)) :: tail)) := by
+  obtain ⟨hlo, hup⟩ := hv
+  have h0 : ∀ l, lo = some l → ¬ l < 0 := fun l hl => by have := hlo l hl; omega
+  have h1 : ∀ u, up = some u → ¬ u > (e.length : Int) - 1 := fun u hu => by have := hup u hu; omega
+  cases lo <;> cases up <;> simp [realIndRanges, bind, Except.bind, pure, Except.pure, h0, h1]
+
+theorem head_range_eq (e : List Q) (lo up : Option Int) (hv : ValidRange e (lo, up)) :
+    rangeFromTo (lo.getD 0).toNat (up.getD ((e.length : Int) - 1)) =
+      (List.range (e.length - 1)).filter (rangePred e (lo, up)) := by
+  obtain ⟨hlo, hup⟩ := hv
+  have hle : up.getD ((e.length : Int) - 1) ≤ ((e.length - 1 : Nat) : Int) := by
+    cases up with
+    | none => simp; omega
+    | some u => have := hup u rfl; simp; omega
+  rw [rangeFromTo_eq_filter _ _ (e.length - 1) hle]
+  apply List.filter_congr
+  intro i _
+  have hnn : 0 ≤ lo.getD 0 := by
+    cases lo with
+    | none => simp
+    | some l => simpa using hlo l rfl
+  have hcast : (((lo.getD 0).toNat : Nat) : Int) = lo.getD 0 := by omega
+  simp only [rangePred, hcast]
+
+theorem realIndRanges_valid : ∀ (axes : List (List Q)) (rg : List (Option Int × Option Int)), ValidRanges axes rg →
+    realIndRanges axes rg = .ok (List.zipWith (fun p r => r.filter p) (List.zipWith rangePred axes rg)
+      ((nbinsOf axes).map List.range))
+  | [], [], _ => by simp [realIndRanges, nbinsOf]
+  | [], _ :: _, h => by simp [ValidRanges] at h
+  | _ :: _, [], h => by simp [ValidRanges] at h
+  | e :: es, (lo, up) :: rs, h => by
+    obtain ⟨hv, ht⟩ := h
+    have ih := realIndRanges_valid es rs ht
+    rw [realIndRanges_cons_valid e es lo up rs hv, ih, head_range_eq e lo up hv]
+    simp [bind, Except.bind, pure, Except.pure, nbinsOf]
+
+theorem validRanges_length : ∀ (axes : List (List Q)) (rg : List (Option Int × Option Int)), ValidRanges axes rg →
+    axes.length = rg.length
+  | [], [], _ => rfl
+  | [], _ :: _, h => by simp [ValidRanges] at h
+  | _ :: _, [], h => by simp [ValidRanges] at h
+  | _ :: es, _ :: rs, h => by simp [validRanges_length es rs h.2]
+
+/-- a negative lower index or an upper index beyond the number of bins is rejected: `LenaValueError` -/
+theorem realIndRanges_invalid : ∀ (axes : List (List Q)) (rg : List (Option Int × Option Int)),
+    rg.length ≤ axes.length →
+    (∃ (k : Nat) (e : List Q) (r : Option Int × Option Int), axes[k]? = some e ∧ rg[k]? = some r ∧ ¬ ValidRange e r) →
+    realIndRanges axes rg = .error .lenaValueError
+  | _, [], _, ⟨k, _, _, _, h, _⟩ => by simp at h
+  | [], _ :: _, hl, _ => by simp at hl
+  | e :: es, (lo, up) :: rs, hl, ⟨k, e', r', h1, h2, h3⟩ => by
+    by_cases hv : ValidRange e (lo, up)
+    · cases k with
+      | zero =>
+        simp at h1 h2
+        subst h1; subst h2
+        exact absurd hv h3
+      | succ k =>
+        have ih := realIndRanges_invalid es rs (by simpa using hl) ⟨k, e', r', by simpa using h1, by simpa using h2, h3⟩
+        obtain ⟨hlo, hup⟩ := hv
+        have h0 : ∀ l, lo = some l → ¬ l < 0 := fun l hl => by have := hlo l hl; omega
+        have h1 : ∀ u, up = some u → ¬ u > (e.length : Int) - 1 := fun u hu => by have := hup u hu; omega
+        cases lo <;> cases up <;> simp [realIndRanges, ih, bind, Except.bind, pure, Except.pure, h0, h1]
+    · cases lo with
+      | some l =>
+        by_cases hl0 : l < 0
+        · simp [realIndRanges, hl0, bind, Except.bind]
+        · cases up with
+          | none =>
+            exfalso; apply hv
+            exact ⟨fun l' h => by (cases h; omega), fun u h => by cases h⟩
+          | some u =>
+            by_cases hgt : u > (e.length : Int) - 1
+            · simp [realIndRanges, hl0, hgt, bind, Except.bind, pure, Except.pure]
+            · exfalso; apply hv
+              exact ⟨fun l' h => by (cases h; omega), fun u' h => by (cases h; omega)⟩
+      | none =>
+        cases up with
+        | none =>
+          exfalso; apply hv
+          exact ⟨fun l' h => by (cases h), fun u h => by cases h⟩
+        | some u =>
+          by_cases hgt : u > (e.length : Int) - 1
+          · simp [realIndRanges, hgt, bind, Except.bind, pure, Except.pure]
+          · exfalso; apply hv
+            exact ⟨fun l' h => by (cases h), fun u' h => by (cases h; omega)⟩
+
 end Lena.C12
